@@ -11,7 +11,7 @@ theorem horner_cons (r : Nat) (c : Char) (cs : List Char) :
   simp only [horner, List.foldl_cons] at this ⊢
   rw [this]; simp
 
-theorem horner_lt_pow {r : Nat} (hr : 1 ≤ r) (cs : List Char) (h : ∀ c ∈ cs, digitVal c < r) :
+theorem horner_lt_pow {r : Nat} (_hr : 1 ≤ r) (cs : List Char) (h : ∀ c ∈ cs, digitVal c < r) :
     horner r cs < r ^ cs.length := by
   induction cs with
   | nil => simp [horner_nil]
@@ -31,7 +31,7 @@ theorem sign_prefix (i : Int) (ds : List Char) :
 
 theorem radixChars_spec (up : Bool) {r : Nat} (h2 : 2 ≤ r) (h36 : r ≤ 36) (i : Int) :
     ∃ ds : List Char, radixChars up r i = (if i < 0 then ['-'] else []) ++ ds ∧
-      horner r ds = i.natAbs ∧ ds ≠ [] ∧ (∀ c ∈ ds, digitVal c < r ∧ c ≠ '-') ∧
+      horner r ds = i.natAbs ∧ ds ≠ [] ∧ (∀ c ∈ ds, ∃ d, d < r ∧ c = digitChar up d) ∧
       (i ≠ 0 → ds.head? ≠ some '0') := by
   by_cases hi : i = 0
   · subst hi
@@ -41,8 +41,7 @@ theorem radixChars_spec (up : Bool) {r : Nat} (h2 : 2 ≤ r) (h36 : r ≤ 36) (i
     · intro c hc
       have : c = '0' := by simpa using hc
       subst this
-      have : digitVal '0' = 0 := by decide
-      exact ⟨by omega, by decide⟩
+      exact ⟨0, by omega, by cases up <;> decide⟩
   · have hn : i.natAbs ≠ 0 := by omega
     refine ⟨beChars up (digitsLE r i.natAbs), ?_, ?_, ?_, ?_, ?_⟩
     · simp only [radixChars, hi, ↓reduceIte]
@@ -51,7 +50,7 @@ theorem radixChars_spec (up : Bool) {r : Nat} (h2 : 2 ≤ r) (h36 : r ≤ 36) (i
     · simp [beChars, digitsLE_ne_nil h2 hn]
     · intro c hc
       obtain ⟨d, hd, hd36, rfl⟩ := mem_beChars_digitsLE h2 h36 hc
-      exact ⟨by rw [digitVal_digitChar up d hd36]; exact hd, digitChar_ne_minus up d hd36⟩
+      exact ⟨d, hd, rfl⟩
     · intro _ hh
       simp only [beChars, List.head?_reverse, List.getLast?_map] at hh
       cases hl : (digitsLE r i.natAbs).getLast? with
@@ -86,10 +85,11 @@ theorem radixChars_upper {r : Nat} (h2 : 2 ≤ r) (h36 : r ≤ 36) (i : Int) :
 /-! ## decimal, decimal point -/
 
 theorem natChars_lt_pow (m : Nat) : m < 10 ^ (natChars m).length := by
-  have := horner_lt_pow (r := 10) (by omega) (natChars m) (fun c hc => (natChars_digits m c hc).2.2)
+  have := horner_lt_pow (r := 10) (by omega) (natChars m) (fun c hc => (natChars_digits m c hc).2.2.1)
   rwa [horner_natChars] at this
 
-def isDec (c : Char) : Prop := c ≠ '-' ∧ c ≠ '.' ∧ digitVal c < 10
+/-- a decimal digit character `0`..`9`. -/
+def isDec (c : Char) : Prop := isDigit c = true
 
 /-- the text of `~Nd` for a non-negative number: integer part, then (for N > 0) the point and
     exactly N digits. -/
@@ -113,13 +113,13 @@ theorem insertPoint_spec (n m : Nat) :
       · intro c hc
         rcases List.mem_append.mp hc with h | h
         · have : c = '0' := (List.mem_replicate.mp h).2
-          subst this; exact ⟨by decide, by decide, by decide⟩
-        · exact natChars_digits m c h
+          subst this; exact (by decide : isDigit '0' = true)
+        · exact (natChars_digits m c h).2.2.2
     · simp only [hl, ↓reduceIte]
       obtain ⟨h1, h2, h3⟩ := natChars_take_drop (m := m) (k := n) (by omega)
       refine ⟨'.' :: (natChars m).drop ((natChars m).length - n), by rw [h1], Or.inr ⟨by omega, _, rfl, h2, h3, ?_⟩⟩
       intro c hc
-      exact natChars_digits m c (List.mem_of_mem_drop hc)
+      exact (natChars_digits m c (List.mem_of_mem_drop hc)).2.2.2
 
 theorem fmtD_sign (n : Nat) (i : Int) :
     fmtD false n i = (if i < 0 then ['-'] else []) ++ insertPoint n (natChars i.natAbs) := by
